@@ -738,6 +738,8 @@ pub fn exec_map<const N: usize>(cage: &mut Cage<Map<Key, Val, N>>, op: &Value, c
         }
         "retain" => {
             let keep: Vec<Cls> = op["keep"].as_array().unwrap().iter().map(|x| x.as_u64().unwrap() as Cls).collect();
+            // windowed histories: `reject` lists the watched keys to drop; every key in neither list is kept
+            let reject: Option<Vec<Cls>> = op["reject"].as_array().map(|a| a.iter().map(|x| x.as_u64().unwrap() as Cls).collect());
             let m = &mut cage.m;
             let span = ctx.span;
             let outside = Cell::new(0usize);
@@ -755,7 +757,7 @@ pub fn exec_map<const N: usize>(cage: &mut Cage<Map<Key, Val, N>>, op: &Value, c
                     if w != NO_WRITE {
                         v.content = w as u8;
                     }
-                    keep.contains(&k.class())
+                    keep.contains(&k.class()) || reject.as_ref().map(|r| !r.contains(&k.class())).unwrap_or(false)
                 })
             });
             if outside.get() > 0 {
